@@ -571,6 +571,34 @@ func c09Cycle(c *Ctx) {
 			}
 		}
 		c.check(okAll, "C09.4", "detectCycles:every-node", L.pos(det.Pos()), "detectCycles starts a search from the elements of g.nodes", "DFS root derives from g.nodes")
+		// round 16 (C09-m31): before the searches start no node is settled - whatever detectCycles itself writes into the
+		// colour map is one and the same colour (the unvisited one); a node pre-coloured as finished is never descended into
+		initColours := map[string]bool{}
+		var initAt ssa.Instruction
+		for _, b := range det.Blocks {
+			for _, in := range b.Instrs {
+				mu, ok := in.(*ssa.MapUpdate)
+				if !ok {
+					continue
+				}
+				mt, ok := mu.Map.Type().Underlying().(*types.Map)
+				if !ok {
+					continue
+				}
+				if nt, ok := mt.Elem().(*types.Named); !ok || nt.Obj().Pkg() == nil || nt.Obj().Pkg().Path() != det.Pkg.Pkg.Path() {
+					continue
+				}
+				if k, ok := mu.Value.(*ssa.Const); ok && k.Value != nil {
+					initColours[k.Value.ExactString()] = true
+				} else {
+					initColours["non-constant:"+mu.Value.Name()] = true
+				}
+				initAt = in
+			}
+		}
+		if initAt != nil {
+			c.check(len(initColours) == 1, "C09.4", "detectCycles:no-node-settled-before-the-search", L.pos(initAt.Pos()), "detectCycles itself colours nodes with one colour only (unvisited): no node is settled before a search has descended into it", fmt.Sprintf("colours written outside the DFS: %v", sortedKeys(initColours)))
+		}
 	} else {
 		c.undecided("C09.4", "detectCycles", "method not found")
 	}
